@@ -309,6 +309,8 @@ def build_rules(specs):
 
 def judge_report(specs, rules, response, missing, show, evname):
     bad = []
+    if response.get("__broker_damaged__"):
+        bad.append("%s: the result objects of %s in the broker lost their type while being reported" % (evname, response["__broker_damaged__"]))
     expected = {}     # heading -> list of (component name, key)
     meta = {}
     skips = []
@@ -382,6 +384,10 @@ def run_report(specs, missing, show, evname, driver="serial"):
         else:
             ev.run_incremental(graph)
     response = get_response_of_types(ev.get_response(), missing, list(show))
+    # reporting is an observer: what the rules returned stays in the broker as it was (a second formatter reads the same broker)
+    untyped = [dr.get_name(r) for r in rules if isinstance(broker.get(r), dict) and "type" not in broker.get(r)]
+    if untyped:
+        response["__broker_damaged__"] = untyped
     return rules, response
 
 
